@@ -205,6 +205,7 @@ def run(ctx) -> None:
     r4_selector(ctx, m, pat_alpha)
     r5_cache(ctx)
     r6_filter_condition_rewrite(ctx)
+    r7_detection_names_whole(ctx)
 
 
 def r3_parse_actions(ctx, m) -> None:
@@ -584,3 +585,43 @@ def r6_filter_condition_rewrite(ctx) -> None:
     else:
         r.ok("C02.R6", f.qual, f"apply_on_rule interpreted on {len(FILTER_SAMPLES)} filter conditions: operators and selector keywords kept, every detection name prefixed", f.loc)
     r.floor("C02.R6", 1)
+
+
+def r7_detection_names_whole(ctx) -> None:
+    """Every key of the detection section except the reserved ones is a detection, whatever its name: the loaders are
+    interpreted (sa.tabulate) on a section whose detections are called like fragments of the reserved words."""
+    from ..tabulate import Interp, Raised
+    r, prog = ctx.r, ctx.prog
+    r.rule("C02.R7", "detection names are whole words for the loader too: SigmaDetections.from_dict and SigmaGlobalFilter.from_dict, interpreted on a detection section with detections named c, on, it, cond, rule, les, sel, keep exactly these as detections (reserved keys are compared as whole keys, not as substrings)")
+    names = ["c", "on", "it", "cond", "ion", "rule", "les", "sel", "1", "conditions"]
+
+    class _Exc:
+        def __getattr__(self, n):
+            return type(n, (Exception,), {})
+    for q, reserved in (("sigma.rule.detection.SigmaDetections.from_dict", {"condition": "sel"}),
+                        ("sigma.filters.SigmaGlobalFilter.from_dict", {"condition": "sel", "rules": "any"})):
+        if not prog.has_func(q):
+            continue
+        f = prog.func(q)
+        got = {}
+
+        def cls(**kw):
+            got.update(kw)
+            return "obj"
+        section = {n: {"f": n} for n in names}
+        section.update(reserved)
+        det = type("SigmaDetection", (), {"from_definition": staticmethod(lambda definition, source=None: ("D", definition["f"]))})
+        it = Interp({"cls": cls, "detections": section, "source": None, "SigmaDetection": det, "sigma_exceptions": _Exc(), "KeyError": KeyError,
+                     "SigmaRuleReference": lambda x: ("ref", x)}, max_steps=5000)
+        try:
+            it.call(f.node.body)
+        except Raised as ex:
+            r.violation("C02.R7", q, "from_dict on a section with short detection names", f"raises {ex}", f.loc)
+            continue
+        kept = sorted((got.get("detections") or {}).keys())
+        if kept == sorted(names):
+            r.ok("C02.R7", q, f"{len(names)} detections with names like fragments of the reserved keys are all kept", f.loc)
+        else:
+            lost = sorted(set(names) - set(kept))
+            r.violation("C02.R7", q, f"detections kept: {kept}", f"lost: {lost} — the reserved keys are tested with a substring test (`name not in (\"condition\")` is a test against a string, not a one-element tuple): a detection called c, on, it or cond silently disappears, so `1 of them` covers fewer detections than the rule lists and a direct reference is 'not defined'", f.loc)
+    r.floor("C02.R7", 2)
